@@ -248,7 +248,12 @@ def run_plan(plan):
         dim = d if p.get("n_components") is None else p["n_components"]
         k = p.get("k")
         k_eff = min(7, d - 1) if k is None else (d - 1 if k >= d else k)
-        ref = cf.lfda_ref(X, y, dim, k_eff, p["embedding_type"])
+        try:
+          ref = cf.lfda_ref(X, y, dim, k_eff, p["embedding_type"])
+        except np.linalg.LinAlgError:
+          # the reference's Cholesky of S_w failed: S_w is singular to rounding, nothing to compare
+          inconclusive.append("lfda_within_scatter_ill_conditioned")
+          continue
         wsw = np.linalg.eigvalsh(ref["Sw"])
         if wsw.min() <= 1e-8 * wsw.max():
           inconclusive.append("lfda_within_scatter_ill_conditioned")
